@@ -120,3 +120,62 @@ func ReplayOps(r *Run, f func(op []string) (string, bool)) error {
 	}
 	return nil
 }
+
+// Corpus returns the minimised past failures stored under /verif/corpus/<name>/*.ops: each file is
+// one case, one op per line (anything after a TAB is ignored; lines starting with "#" are skipped).
+// Harnesses run these first.
+func Corpus(name string) [][]string {
+	dir := filepath.Join(verifDir(), "corpus", name)
+	files, _ := filepath.Glob(filepath.Join(dir, "*.ops"))
+	var out [][]string
+	for _, f := range files {
+		b, err := os.ReadFile(f)
+		if err != nil {
+			continue
+		}
+		var ops []string
+		for _, l := range strings.Split(string(b), "\n") {
+			l = strings.SplitN(l, "\t", 2)[0]
+			if l == "" || strings.HasPrefix(l, "#") {
+				continue
+			}
+			ops = append(ops, l)
+		}
+		if len(ops) > 0 {
+			out = append(out, ops)
+		}
+	}
+	return out
+}
+
+func verifDir() string {
+	if d := os.Getenv("VERIF_DIR"); d != "" {
+		return d
+	}
+	return "/verif"
+}
+
+// Hex encodes a string for the line protocol ("-" for the empty string).
+func Hex(s string) string {
+	if s == "" {
+		return "-"
+	}
+	const d = "0123456789abcdef"
+	b := make([]byte, 0, 2*len(s))
+	for i := 0; i < len(s); i++ {
+		b = append(b, d[s[i]>>4], d[s[i]&15])
+	}
+	return string(b)
+}
+
+// Guard runs f with panic recovery; it returns "panic" and the message if f panicked.
+func Guard(f func()) (panicked bool, msg string) {
+	defer func() {
+		if e := recover(); e != nil {
+			panicked = true
+			msg = fmt.Sprint(e)
+		}
+	}()
+	f()
+	return false, ""
+}
